@@ -71,7 +71,11 @@ impl Image {
 
     pub(crate) fn vec_from_document(document: &Document) -> Result<Vec<Self>> {
         let mut images = Vec::new();
-        if let Some(images2d_node) = document.descendants().find(|n| n.has_tag_name("images2D")) {
+        // Only a child of the root element is the list of images, an extension attribute
+        // with the same name inside of a point cloud prototype is not
+        let root = document.descendants().find(|n| n.has_tag_name("e57Root"));
+        let images2d = root.and_then(|r| r.children().find(|n| n.has_tag_name("images2D")));
+        if let Some(images2d_node) = images2d {
             for n in images2d_node.children() {
                 if n.has_tag_name("vectorChild") && n.attribute("type") == Some("Structure") {
                     let image = Self::from_node(&n)?;
